@@ -149,13 +149,24 @@ class Lines:
                         num_spaces += 1
                         index = (index + 1) % len(spaces)
                 tokens: List[Text] = []
+                offset = 0
                 for index, (word, next_word) in enumerate(
                     zip_longest(words, words[1:])
                 ):
                     tokens.append(word)
+                    offset += len(word)
                     if index < len(spaces):
+                        # the space that was in the text keeps its own style,
+                        # the spaces added to fill the line take after their neighbours
+                        tokens.append(
+                            Text(" ", style=line.get_style_at_offset(console, offset))
+                        )
+                        offset += 1
                         style = word.get_style_at_offset(console, -1)
                         next_style = next_word.get_style_at_offset(console, 0)
                         space_style = style if style == next_style else line.style
-                        tokens.append(Text(" " * spaces[index], style=space_style))
+                        if spaces[index] > 1:
+                            tokens.append(
+                                Text(" " * (spaces[index] - 1), style=space_style)
+                            )
                 self[line_index] = Text("").join(tokens)
